@@ -1076,9 +1076,12 @@ fn judge(sc: &Scenario, refs: &BTreeSet<String>, ex: &ExecOutcome, prop: &str) -
                         continue;
                     }
                     let share = x.ents.iter().any(|e| y.ents.contains(e));
-                    // y certainly committed after x began and before x tried to commit
-                    if share && y.ok && x.ok && y.c_inv > x.b_ret && y.c_ret < x.c_inv {
-                        out.push((format!("{prop} | txm | lost-update(both-committed)"), format!("writer committed in {}..{} inside the other's lifetime {}..{}", y.c_inv, y.c_ret, x.b_ret, x.c_inv)));
+                    // Lifetimes certainly overlap: each had begun before the other's commit was
+                    // invoked. Whichever commit takes effect second then has a committed
+                    // overlapping writer of a shared entity and must be refused - also when the
+                    // two commit calls themselves overlap in time.
+                    if k > i && share && y.ok && x.ok && x.b_ret < y.c_inv && y.b_ret < x.c_inv {
+                        out.push((format!("{prop} | txm | lost-update(both-committed)"), format!("both writers of a shared entity committed: lifetimes {}..{} and {}..{} (commit calls {}..{} and {}..{})", x.b_inv, x.c_ret, y.b_inv, y.c_ret, x.c_inv, x.c_ret, y.c_inv, y.c_ret)));
                     }
                     if k > i && x.ok && y.ok && x.epoch == y.epoch {
                         out.push((format!("{prop} | txm | duplicate-commit-epoch"), format!("epoch {}", x.epoch)));
